@@ -234,3 +234,78 @@ func refWellFormedBundle(out []byte, b1 bool) ([]refSection, bool) {
 	}
 	return secs, true
 }
+
+// refIndexDelimitsResponses: every location-in-responses of the index (b2: [off,len]; b1: [variants, (off,len)+])
+// delimits exactly one [bstr headers, bstr payload] item inside the responses section, and the entries do not
+// overlap each other.
+func refIndexDelimitsResponses(out []byte, secs []refSection, b1 bool) bool {
+	var idx, resp refSection
+	for _, s := range secs {
+		if s.name == "index" {
+			idx = s
+		}
+		if s.name == "responses" {
+			resp = s
+		}
+	}
+	sec := out[idx.start:idx.end]
+	m, n, p, ok := refReadHead(sec, 0)
+	if !ok || m != 5 {
+		return false
+	}
+	rlen := resp.end - resp.start
+	var used [][2]uint64
+	for i := uint64(0); i < n; i++ {
+		km, kl, kp, ok := refReadHead(sec, p)
+		if !ok || km != 3 {
+			return false
+		}
+		p = kp + kl
+		am, an, ap, ok := refReadHead(sec, p)
+		if !ok || am != 4 {
+			return false
+		}
+		p = ap
+		pairs := an / 2
+		if b1 {
+			vm, vl, vp, ok := refReadHead(sec, p)
+			if !ok || vm != 2 || an%2 != 1 {
+				return false
+			}
+			p = vp + vl
+		} else if an != 2 {
+			return false
+		}
+		for j := uint64(0); j < pairs; j++ {
+			om, off, op, ok1 := refReadHead(sec, p)
+			lm, ln, lp, ok2 := refReadHead(sec, op)
+			if !ok1 || !ok2 || om != 0 || lm != 0 {
+				return false
+			}
+			p = lp
+			end, nowrap := addNoWrap(off, ln)
+			if !nowrap || end > rlen || ln == 0 {
+				return false
+			}
+			ent := out[resp.start+off : resp.start+end]
+			if ent[0] != 0x82 {
+				return false
+			}
+			m1, l1, q1, ok := refReadHead(ent, 1)
+			if !ok || m1 != 2 || l1 > uint64(len(ent))-q1 {
+				return false
+			}
+			m2, l2, q2, ok := refReadHead(ent, q1+l1)
+			if !ok || m2 != 2 || q2+l2 != uint64(len(ent)) {
+				return false
+			}
+			for _, u := range used {
+				if off < u[1] && u[0] < end {
+					return false
+				}
+			}
+			used = append(used, [2]uint64{off, end})
+		}
+	}
+	return p == uint64(len(sec))
+}
